@@ -112,7 +112,7 @@ def run_case(ctx, index):
                 biom.concat(tables[:-1] + [tb], axis=axis)
             else:
                 tables[0].concat(tables[1:-1] + [tb], axis=axis)
-        except ctx.DisjointIDError:
+        except Exception:
             ctx.count('non_disjoint_refused')
         else:
             raise Violation('C10/non-disjoint-accepted', 'operands share the '
